@@ -119,10 +119,9 @@ class WorkflowState(object):
             for i, t in enumerate(self.sequence):
                 for k, v in t["prev"].items():
                     p = self.sequence[v]
-                    if p["id"] == task_id and p["route"] == route:
+                    if p["id"] == task_id and p["route"] == route and (i, t) not in seq:
                         seq.append((i, t))
-                        if (i, t) not in seq:
-                            q.put((t["id"], t["route"]))
+                        q.put((t["id"], t["route"]))
 
         return seq
 
